@@ -54,6 +54,7 @@ func runC03(t *simrt.Tape, o Opts) Outcome {
 	s := simrt.Run(t, cfg, func(s *simrt.Sim) {
 		w = world.New(s, "C03")
 		w.ScanLeaks = true
+		s.RandLog = map[string]int{}
 		logSink.Store(w)
 		defer logSink.Store(nil)
 		st.Oracle = map[string]int{}
@@ -163,9 +164,21 @@ func auditEncrypt(w *world.World, st *Stats, rec *world.Rec, op *world.OpRec) {
 func auditGlobal(w *world.World, st *Stats, payloadFP map[string]bool) {
 	count(st.Oracle, "global-audit")
 	pairs := map[string]int{}
+	nonceUses := map[string]int{}
 	for _, c := range w.AEADCalls {
 		if !c.Enc || !c.OK {
 			continue
+		}
+		// every nonce is a fresh 12-byte draw from the process's cryptographic random source
+		count(st.Oracle, "nonce-from-crypto-rand")
+		nonceUses[c.Nonce]++
+		if w.S.RandLog[c.Nonce] == 0 {
+			w.Violate("nonce-not-from-crypto-rand", "nonce-not-from-crypto-rand", "a nonce used for an encryption (op %v) was not drawn from crypto/rand: no %d-byte read of the random source produced it", opIdx(c.Op), len(c.Nonce))
+			return
+		}
+		if nonceUses[c.Nonce] > w.S.RandLog[c.Nonce] {
+			w.Violate("nonce-draw-reused", "nonce-draw-reused", "one draw from the random source served as nonce for two encryptions")
+			return
 		}
 		k := c.KeyFP + "|" + c.Nonce
 		pairs[k]++
@@ -233,4 +246,11 @@ func auditGlobal(w *world.World, st *Stats, payloadFP map[string]bool) {
 			return
 		}
 	}
+}
+
+func opIdx(op *world.OpRec) int {
+	if op == nil {
+		return -1
+	}
+	return op.Idx
 }
